@@ -70,14 +70,14 @@ def parseReq (isResp : Bool) (ws : List String) : Option Txn :=
   | m :: url :: rest =>
     if isResp then do
       let st ← kvNat rest "st"
-      pure ⟨true, pctDec m, splitURL (pctDec url), [], [], st⟩
+      pure ⟨true, pctDec m, splitURL (pctDec url), [], [], st, true⟩
     else do
       let hs ← (kv rest "h").bind parsePairs
       -- `rq=<raw query string>` wins over the well-formed list `q=k:v,...`
       let qs ← match kv rest "rq" with
         | some raw => some (parseQuery (pctDec raw))
         | none => (kv rest "q").bind parsePairs
-      pure ⟨false, pctDec m, splitURL (pctDec url), hs, qs, 0⟩
+      pure ⟨false, pctDec m, splitURL (pctDec url), hs, qs, 0, true⟩
   | _ => none
 
 def applyPerm (fs : List Flow) (perm : List Nat) : List Flow := perm.filterMap (fs[·]?)
@@ -106,6 +106,9 @@ def fmtGroups (qs : List Flow) : String :=
     String.intercalate "+" (g.members.mergeSort (fun a b => a ≤ b))).mergeSort (fun a b => a ≤ b))
 
 def fmtRun (ids : List String) : String := "run=" ++ fmtList ((ids.mergeSort (fun a b => a ≤ b)).eraseDups)
+
+/-- the flow the harness adds for `eng early`: matches everything, its request direction answers the request -/
+def earlyFlow : Flow := mkFlow "zzearly" .user "*" [] [] [] []
 
 structure RunSt where
   tree : Tree Nat := []
@@ -154,6 +157,22 @@ def runStep (s : RunSt) (line : String) : RunSt × String :=
       match quotasRun s.quotas t with
       | .ok ids => (s, fmtRun ids)
       | .error _ => (s, "no-quotas")
+  | "early" :: ws =>
+    -- L2: the filter tree as `executeReq` asks it after a short circuit (request stream switched to the
+    -- response type, no response object)
+    match parseReq false ws, s.ft with
+    | some t, some ft => (s, fmtAnswer (observe ft t.early))
+    | some _, none => (s, "no-tree")
+    | none, _ => (s, "bad-op")
+  | "eng" :: "early" :: ws =>
+    -- L3: the user flows plus the match-all flow `zzearly` whose request direction answers the request; the
+    -- flows whose RESPONSE direction runs on that early response, over all load orders
+    match parseReq false ws with
+    | none => (s, "bad-op")
+    | some t =>
+      let fs := s.flows.filter (fun f => f.kind == .user && f.url != "")
+      if fs.length > 3 || fs.any (fun f => f.name == "zzearly") then (s, "unsupported") else
+      (s, s!"poss={String.intercalate "|" (possible (fs ++ [earlyFlow]) t.early)} eng=in n=ok")
   | "eng" :: rr :: ws =>
     if rr != "req" && rr != "res" then (s, "bad-op") else
     match parseReq (rr == "res") ws with
@@ -248,15 +267,22 @@ def judgeStep (s : JudgeSt) (op out : String) : JudgeSt :=
     | some _, some _, none =>
       if out == "no-quotas" then s else { s with bad := some ("unparsable-output:" ++ pctEnc out) }
     | _, _, _ => s
+  | "eng" :: "early" :: ws =>
+    if out == "unsupported" then s else
+    match parseReq false ws, kv (words out) "poss", kv (words out) "eng", kv (words out) "n" with
+    | some t, some poss, some e, some n =>
+      { s with engs := s.engs ++ [⟨op, s.flows.filter (fun f => f.kind == .user && f.url != "") ++ [earlyFlow],
+          t.early, poss.splitOn "|", e == "in", n == "ok"⟩] }
+    | _, _, _, _ => if out == "bad-op" then s else { s with bad := some ("unparsable-output:" ++ pctEnc out) }
   | "eng" :: rr :: ws =>
     if out == "unsupported" then s else
     match parseReq (rr == "res") ws, kv (words out) "poss", kv (words out) "eng", kv (words out) "n" with
     | some t, some poss, some e, some n =>
       { s with engs := s.engs ++ [⟨op, s.flows.filter (fun f => f.kind == .user && f.url != ""), t, poss.splitOn "|", e == "in", n == "ok"⟩] }
     | _, _, _, _ => if out == "bad-op" then s else { s with bad := some ("unparsable-output:" ++ pctEnc out) }
-  | "req" :: ws | "res" :: ws =>
+  | "req" :: ws | "res" :: ws | "early" :: ws =>
     let isResp := (words op).head? == some "res"
-    match s.cur, parseReq isResp ws with
+    match s.cur, (parseReq isResp ws).map (fun t => if (words op).head? == some "early" then t.early else t) with
     | some r, some t =>
       if out.startsWith "panic" then { s with bad := some ("impl-panic:" ++ pctEnc out) } else
       match parseAnswer (words out) with
